@@ -134,6 +134,119 @@ func (r *run) probeRejectedPoison() {
 	r.doAdd(p, "probe-rejected-poison-header") // judged by the oracle (nonmember / quorum / map clauses)
 }
 
+// foreignBlob: a well-formed signature blob of ANOTHER scheme than the one key id uses (the crypto
+// library does not check that a signature's scheme fits the key's algorithm).
+func (r *run) foreignBlob(id int, members []int) sigSpec {
+	isSM2 := func(k int) bool { return k >= 31 && k <= 33 }
+	if isSM2(id) {
+		if r.c.Intn(2) == 0 {
+			return sigSpec{Kind: "blob", V: r.c.Intn(50)}
+		}
+		for _, k := range members {
+			if k <= 30 {
+				return sigSpec{Kind: "othermsg", K: k, V: r.c.Intn(1000)}
+			}
+		}
+		return sigSpec{Kind: "blob", V: 1}
+	}
+	return sigSpec{Kind: "othermsg", K: 31 + r.c.Intn(3), V: r.c.Intn(1000)} // an SM2 blob
+}
+
+// hostileEncode rewrites a candidate so that some listed bookkeepers come in a hostile wire
+// encoding; often the forged object is put first and a foreign-scheme blob (or garbage) first
+// among the signatures, so that the first verification trial pairs them.
+func (r *run) hostileEncode(sp *hdrSpec, members []int) {
+	c := r.c
+	if len(sp.Bks) == 0 {
+		return
+	}
+	encs := []string{"uncompressed", "off+2", "off+2", "off+6", "off+40", "off+1", "zero", "nonresidue", "infinity"}
+	sp.Enc = make([]string, len(sp.Bks))
+	at := c.Intn(len(sp.Bks))
+	if c.Intn(2) == 0 { // the forged object first
+		sp.Bks[0], sp.Bks[at] = sp.Bks[at], sp.Bks[0]
+		at = 0
+	}
+	sp.Enc[at] = encs[c.Intn(len(encs))]
+	if len(sp.Bks) > 1 && c.Intn(3) == 0 {
+		sp.Enc[c.Intn(len(sp.Bks))] = encs[c.Intn(len(encs))]
+	}
+	switch c.Intn(4) {
+	case 0: // every signature a foreign-scheme blob / garbage
+		for i := range sp.Sigs {
+			sp.Sigs[i] = r.foreignBlob(sp.Bks[at], members)
+		}
+		if len(sp.Sigs) == 0 {
+			sp.Sigs = []sigSpec{r.foreignBlob(sp.Bks[at], members)}
+		}
+	case 1: // a foreign-scheme blob first, the rest as generated
+		sp.Sigs = append([]sigSpec{r.foreignBlob(sp.Bks[at], members)}, sp.Sigs...)
+		for i := range sp.Sigs {
+			if sp.Sigs[i].Kind == "dup" {
+				sp.Sigs[i].D++
+			}
+		}
+	case 2: // garbage first
+		sp.Sigs = append([]sigSpec{{Kind: "corrupt", K: sp.Bks[at]}}, sp.Sigs...)
+		for i := range sp.Sigs {
+			if sp.Sigs[i].Kind == "dup" {
+				sp.Sigs[i].D++
+			}
+		}
+	}
+}
+
+// probeForgedEncoding (deterministic, every run; nothing here may be accepted on a correct tree):
+// headers whose bookkeepers carry a member's identity in a forged key object (uncompressed wire
+// form with an off-curve Y of the same parity) and whose signatures nobody made.
+func (r *run) probeForgedEncoding() {
+	c := r.c
+	try := func(sp hdrSpec, tag string) {
+		if r.doVerify(sp, tag) {
+			c.Note("forged-encoding probe accepted by verifyHeader: " + tag)
+		}
+		if r.doAdd(sp, tag+"-AddHeaders") {
+			c.Note("forged-encoding probe accepted by AddHeaders: " + tag)
+		}
+	}
+	// genesis configuration (N=7, C=2, all P-256): three members listed, the first as (X, Y+2);
+	// the only signature is an SM2-scheme blob made by a non-member
+	g := r.next()
+	g.Last, g.Bks, g.Enc = 0, []int{1, 2, 3}, []string{"off+2", "", ""}
+	g.Sigs = []sigSpec{{Kind: "valid", K: 31}}
+	try(g, "probe-forged-p256-sm2-blob")
+	g2 := g
+	g2.Salt++
+	g2.Sigs = []sigSpec{{Kind: "blob", V: 3}, {Kind: "blob", V: 4}, {Kind: "blob", V: 5}}
+	try(g2, "probe-forged-p256-ecdsa-garbage")
+	// a configuration of mixed key types: SM2 members 31 and 32, P-256 members, an Ed25519 member
+	a := r.next()
+	a.Last, a.Cfg = 0, &mCfg{C: 1, Peers: []int{31, 1, 2, 3, 32, 4, 5, 6, 34, 7, 8, 9, 10, 11}}
+	a.Bks, a.Sigs = seq(1, 7), validSigs(seq(1, 7))
+	if !r.doAdd(a, "honest-newcfg-mixed-keys") {
+		c.Note("forged-encoding probe: mixed-key configuration refused; rest skipped")
+		return
+	}
+	for i, enc := range []string{"off+2", "off+6", "off+40", "uncompressed", "off+1", "zero"} {
+		f := r.next()
+		f.Salt += uint64(i)
+		f.Last, f.Bks, f.Enc = a.Height, []int{31, 1}, []string{enc, ""}
+		f.Sigs = []sigSpec{{Kind: "blob", V: 1}, {Kind: "blob", V: 2}} // ECDSA-scheme blobs meet the SM2-curve object first
+		try(f, "probe-forged-sm2-"+enc+"-ecdsa-blobs")
+	}
+	f := r.next()
+	f.Last, f.Bks, f.Enc = a.Height, []int{1, 31}, []string{"off+2", ""}
+	f.Sigs = []sigSpec{{Kind: "othermsg", K: 32, V: 1}, {Kind: "othermsg", K: 32, V: 2}} // SM2 blobs meet the off-curve P-256 object first
+	try(f, "probe-forged-p256-sm2-blobs")
+	// control: the uncompressed GENUINE encodings with real signatures are accepted
+	ok := r.next()
+	ok.Last, ok.Bks, ok.Enc = a.Height, []int{31, 1, 34}, []string{"uncompressed", "uncompressed", ""}
+	ok.Sigs = validSigs([]int{31, 1})
+	if !r.doVerify(ok, "control-uncompressed-genuine") {
+		c.Note("control: a header with uncompressed genuine keys and valid signatures was refused")
+	}
+}
+
 // satisfiable: can pool keys produce an accepted header against the configuration at height g?
 func (r *run) satisfiable(g uint32) bool {
 	cfg := r.e.cfgAt(g)
@@ -371,7 +484,10 @@ func (r *run) candidate() (hdrSpec, string) {
 			tag = "mutated-signature"
 		}
 	}
-	if c.Intn(4) == 0 {
+	if c.Intn(7) == 0 && len(sp.Bks) > 0 {
+		r.hostileEncode(&sp, members)
+		tag = "hostile-encoding"
+	} else if c.Intn(4) == 0 {
 		c.Rng.Shuffle(len(sp.Sigs), func(i, j int) {
 			if sp.Sigs[i].Kind != "dup" && sp.Sigs[j].Kind != "dup" {
 				sp.Sigs[i], sp.Sigs[j] = sp.Sigs[j], sp.Sigs[i]
